@@ -110,7 +110,7 @@ func (a *AuthenStart) Validate() error {
 			return err
 		}
 	}
-	return nil
+	return fitsLen(0xff, a.User.Len(), a.Port.Len(), a.RemAddr.Len(), a.Data.Len())
 }
 
 // MarshalBinary encodes AuthenStart to tacacs bytes
@@ -250,7 +250,7 @@ func (a *AuthenContinue) Validate() error {
 			return err
 		}
 	}
-	return nil
+	return fitsLen(0xffff, a.UserMessage.Len(), a.Data.Len())
 }
 
 // MarshalBinary encodes AuthenContinue to tacacs bytes
@@ -370,7 +370,7 @@ func (a *AuthenReply) Validate() error {
 			return err
 		}
 	}
-	return nil
+	return fitsLen(0xffff, a.ServerMsg.Len(), a.Data.Len())
 }
 
 // MarshalBinary encodes AuthenReply to tacacs bytes
